@@ -31,5 +31,8 @@ def run(F, rep):
         rep.run(lemmas.eq_ord_lemmas, F, rep, ty)
     # layout + padding preservation by every writer
     rep.run(lemmas.ladder_lemmas, F, rep)
-    rep.run(common.run_kmer_lemmas, F, rep, {"empty", "get", "set", "slice", "rc", "ext", "rank"})
+    rep.run(common.run_kmer_lemmas, F, rep, {"empty", "get", "set", "slice", "rc", "ext", "rank", "canon"})
+    # construction routes must agree (the same string gives the same k-mer whichever constructor built it)
+    for ty in common.kmer_type_names(F):
+        rep.run(lemmas.kmer_default_lemmas, F, rep, ty, which={"from_bytes", "from_ascii"}, rule="L-default")
     rep.run(structural.kmer_storage_writers, F, rep)
